@@ -467,7 +467,10 @@ static int dispatch(HttpAsyncCtx *clientCtx) {
 			KSI_AsyncHandle *handle = NULL;
 
 			handle = curlResponse->reqCtx;
-			if (curlMsg->data.result != CURLE_OK) {
+			if (handle->state != KSI_ASYNC_STATE_WAITING_FOR_RESPONSE) {
+				/* The request has been completed in the meantime (e.g. timed out), its state must not be overwritten. */
+				KSI_LOG_debug(clientCtx->ctx, "[%p] Async Curl HTTP: transfer of an already completed request finished.", clientCtx);
+			} else if (curlMsg->data.result != CURLE_OK) {
 				size_t len = strlen(curlResponse->errMsg);
 				KSI_LOG_error(clientCtx->ctx, "[%p] Async Curl HTTP: error result %d (%s).",
 						clientCtx, curlMsg->data.result, curlResponse->errMsg);
